@@ -344,6 +344,15 @@ class Background2D:
                 raise ValueError(f'data and {name} must have the same shape.')
         return array
 
+    def _to_data_dtype(self, data):
+        """
+        Convert the float mesh values to the (integer) dtype of the input
+        data, rounding to the nearest integer instead of truncating.
+        """
+        if np.issubdtype(self._data_dtype, np.integer):
+            data = np.round(data)
+        return data.astype(self._data_dtype)
+
     def _apply_units(self, data):
         """
         Apply units to the data.
@@ -671,7 +680,7 @@ class Background2D:
         if not np.any(np.isnan(data)):
             # output integer dtype if input data was integer dtyle
             if data.dtype != self._data_dtype:
-                data = data.astype(self._data_dtype)
+                data = self._to_data_dtype(data)
             return data
 
         mask = ~np.isnan(data)
@@ -697,7 +706,7 @@ class Background2D:
 
         # output integer dtype if input data was integer dtyle
         if interp_data.dtype != self._data_dtype:
-            interp_data = interp_data.astype(self._data_dtype)
+            interp_data = self._to_data_dtype(interp_data)
 
         return interp_data
 
